@@ -184,7 +184,7 @@ theorem stealLocal_spec (ok : CfgOk c) (inv : UpperInv0 c H m) (r : Request) (fr
       · subst e; simp
       · simp [gset, e]
     | error e =>
-      obtain ⟨rfl, rfl⟩ := hlr
+      obtain ⟨rfl, rfl, _⟩ := hlr
       simp only
       apply Runs.bind (tput_spec ok inv1 (res.row / c.g.treeRows) (2 ^ r.order) hlt (by simp))
       rintro _ m3 ⟨inv3, same3⟩
